@@ -48,6 +48,14 @@ def make_store(kind, root, reopen=False, lru=3, commit_type=None):
             if not os.path.lexists(os.path.join(root, name)):
                 os.symlink(real, os.path.join(root, name))
         return LocalFileStore(os.path.join(root, "internal"), os.path.join(root, "data"))
+    if kind in ("local_api_cache_all", "local_api_cache_true", "local_api_cache_5"):
+        # the cache-wrapped store exactly as dds.set_store configures it (cache_objects = -1 "everything", True, 5)
+        import dds
+        from dds import _api
+
+        dds.set_store("local", internal_dir=os.path.join(root, "internal"), data_dir=os.path.join(root, "data"),
+                      cache_objects={"local_api_cache_all": -1, "local_api_cache_true": True, "local_api_cache_5": 5}[kind])
+        return _api._store()
     if kind == "local_lru":
         return LRUCacheStore(
             LocalFileStore(os.path.join(root, "internal"), os.path.join(root, "data")), lru
